@@ -649,6 +649,9 @@ func UploadFolderHandler(rwc io.ReadWriter, fullPath string, fileTransfer *FileT
 
 				if err := receiveFile(rwc, file, io.Discard, io.Discard, fileTransfer.bytesSentCounter); err != nil {
 					rLogger.Error(err.Error())
+
+					// The rest of the file did not arrive: it stays a partial upload, as in the send-file case below.
+					return err
 				}
 
 				err = os.Rename(fullPath+"/"+fu.FormattedPath()+".incomplete", fullPath+"/"+fu.FormattedPath())
